@@ -81,8 +81,30 @@ ReoptClauses(ev, s) ==
                                             = [i \in DOMAIN s.last |-> Canon(s.last[i].t)]>> >>
     [] OTHER -> <<>>
 
+\* ---- the layouts of the real registry graph (models/structure.py), judged and followed by Layout.tla
+L == INSTANCE Layout
+LayMsOf(ev) == [i \in DOMAIN ev.graph.models |->
+                  [ix |-> ev.graph.models[i].ix,
+                   inc |-> {<<ev.graph.models[i].inc[j][1], IF ev.graph.models[i].inc[j][1] = "" THEN "" ELSE "f">> : j \in DOMAIN ev.graph.models[i].inc}]]
+ComposeClauses(ev) ==
+  LET ok == ev.exc = ""
+      ms == LayMsOf(ev)
+      on == IF ok THEN [roots |-> ev.nested.roots, nested |-> [ix \in L!Ix(ms) |-> ev.nested.children[ix]]] ELSE <<>>
+      of == [list |-> ev.flat]
+  IN IF Claim # "C12" THEN <<>> ELSE
+     << <<"C12.compose-total", TRUE, ok>>,
+        <<"C12.once.flat", ok, ~ok \/ L!EachOnceFlat(ms, of)>>,
+        <<"C12.once.nested", ok, ~ok \/ L!EachOnceNested(ms, on)>>,
+        <<"C12.root-first", ok /\ L!Tree(ms), ~(ok /\ L!Tree(ms)) \/ L!RootFirst(ms, of)>>,
+        <<"C12.placement", ok /\ L!Tree(ms), ~(ok /\ L!Tree(ms)) \/ L!PlacedInReferrer(ms, on)>> >>
+ComposeDrift(ev) ==
+  ev.exc = "" /\ Len(ev.graph.models) <= 14 /\
+  LET ms == LayMsOf(ev) n == L!Nested(ms) f == L!Flat(ms) IN
+  \/ f.list # ev.flat \/ n.roots # ev.nested.roots \/ \E ix \in L!Ix(ms) : n.nested[ix] # ev.nested.children[ix]
+
 Clauses(ev, s) ==
-  CASE ev.ev = "MergeModels" -> MergeClauses(ev, s)
+  CASE ev.ev = "Compose" -> ComposeClauses(ev)
+    [] ev.ev = "MergeModels" -> MergeClauses(ev, s)
     [] ev.ev = "Reoptimize"  -> ReoptClauses(ev, s)
     [] OTHER -> <<>>
 
@@ -98,6 +120,7 @@ Drifts(ev) ==
          LET r == MergeModels([next |-> ev.before.next, models |-> FixModels(ev.before)],
                               FixPolicy(ev.policy), FixEnv(ev.env))
          IN ~SameModels(r.models, FixModels(ev.after))
+    [] ev.ev = "Compose" -> ComposeDrift(ev)
     [] OTHER -> FALSE
 
 NextSt(ev, s) ==
